@@ -19,6 +19,7 @@ def run(tier):
             n += 1
     rep.floor("OpaqueString pipelines extracted", n, 2)
     profiles.normalizer_shape(prog, rep, "normalization_form_nfc", "nfc")
+    profiles.include_leaves(rep, [("C12", "space mapping (additional mapping rule)"), ("C14", "derived property behind FreeformClass"), ("C02", "FreeformClass::allows")])
     rep.extra["exhaustive"] = True
-    rep.assumptions += ["semantics of the leaves: C12 (space mapping), C02/C14 (FreeformClass), unicode-normalization (NFC)"]
+    rep.assumptions += ["semantics of the leaves: C12 (space mapping), C02/C14 (FreeformClass) adopted as dependencies; unicode-normalization implements NFC"]
     return rep
